@@ -261,6 +261,20 @@ fn random_claims(rng: &mut Rng) -> Vec<ClaimOp> {
         let val = gens::json_tree(rng, 2);
         v.push(ClaimOp::Set(Claim::Custom(key, val)));
     }
+    if rng.chance(1, 4) {
+        // claims handed over through extend_claims (generic layer only), incl. a value that is an object whose only
+        // member is named like its own key
+        let k = format!("x{}", rng.below(3));
+        let inner = gens::json_tree(rng, 2);
+        let val = if rng.chance(1, 2) {
+            let mut m = Map::new();
+            m.insert(k.clone(), inner);
+            Value::Object(m)
+        } else {
+            inner
+        };
+        v.push(ClaimOp::Extend(vec![(k, val), ("data".to_string(), json!({"data": "msg"}))]));
+    }
     if rng.chance(1, 3) {
         v.push(ClaimOp::Set(Claim::Aud(rng.utf8_upto(10))));
     }
